@@ -506,6 +506,27 @@ def handle_refuted(sc, prop, ob, row, failed, known, violations, known_hits, raw
             native = {"status": "native-build-failed", "failures": [], "detail": e.out[-800:]}
         except Exception as e:
             native = {"status": "native-error", "failures": [], "detail": str(e)}
+    reproduced0 = bool(native and native.get("status", "").startswith("fail"))
+    if not reproduced0 and ob.get("witness"):
+        # witness search: the stated bound itself on the real (un-stubbed) code over a bounded domain - used only to
+        # find a failing input for an obligation that is already refuted; a model is replayed natively (Layer 1)
+        wob = next((o for o in OB.ALL if o["name"] == ob["witness"]), None)
+        if wob is not None:
+            try:
+                wres = run_group(sc, wob.get("features", "default"), wob.get("checks", "nooverflow"), [wob], 1).get(wob["name"])
+                wverdict, _ = classify(wob, wres)
+                payload["witness_search"] = {"obligation": wob["name"], "bound": wob.get("bound"), "verdict": wverdict, "seconds": wres.get("time")}
+                if wverdict == "refuted":
+                    winputs, wout = concrete_playback(sc, wob)
+                    if winputs is not None:
+                        wn = native_run(sc, wob["name"], winputs)
+                        payload["witness_search"]["native"] = wn
+                        if wn.get("status", "").startswith("fail"):
+                            inputs, native = winputs, wn
+                            payload["replay_obligation"] = wob["name"]
+                            pb_out = (pb_out or "") + "\n--- witness search playback ---\n" + wout[-1500:]
+            except Exception as e:  # best effort
+                payload["witness_search"] = {"obligation": ob["witness"], "error": str(e)}
     payload["inputs"] = ["%d:%x" % (s, v) for s, v in (inputs or [])]
     payload["native"] = native
     payload["verifier_output"] = (raw or "")[-2500:] + ("\n--- playback ---\n" + pb_out[-1500:] if pb_out else "")
@@ -591,7 +612,7 @@ def do_replay(prop, path):
         s, v = t.split(":")
         inputs.append((int(s), int(v, 16)))
     with Scratch() as sc:
-        r = native_run(sc, payload["obligation"], inputs)
+        r = native_run(sc, payload.get("replay_obligation", payload["obligation"]), inputs)
     log(json.dumps(r))
     if r.get("status", "").startswith("fail"):
         log("VIOLATION property=%s replay=%s obligation=%s clause=%r" % (prop, path, payload["obligation"], r["failures"][0]))
@@ -607,6 +628,11 @@ def do_setup():
         if not shutil.which(tool):
             log("setup: missing tool %s" % tool)
             ok = False
+    g = subprocess.run([sys.executable, os.path.join(VERIF, "gen", "gen_consts.py"), "--verify"], stdout=subprocess.PIPE, stderr=subprocess.STDOUT, text=True)
+    log(g.stdout.strip().splitlines()[-1] if g.stdout.strip() else "gen_consts --verify: no output")
+    if g.returncode != 0:
+        log(g.stdout[-1500:])
+        ok = False
     with Scratch() as sc:
         b = sc.native()
         p = subprocess.run([b, "selftest", "1000000", "1"], stdout=subprocess.PIPE, stderr=subprocess.PIPE, text=True)
